@@ -856,12 +856,15 @@ func (fx *fnExec) run() (err error) {
 	fx.asserts = append(fx.asserts, assertion{-1, "(assert (>= alloc!0 0))"})
 	fx.params = map[string]sval{}
 	var paramInv [][2]interface{}
-	for _, p := range fn.Params {
+	for i, p := range fn.Params {
 		n := "p!" + p.Name()
 		s := fx.d.SortOf(p.Type())
 		fx.declare(n, s)
 		fx.vals[p] = val{term: n, typ: p.Type()}
 		fx.params[p.Name()] = sval{term: n, typ: p.Type(), sort: s}
+		// positional alias (receiver is param0 for methods): lets a clause name "the function's own
+		// i-th parameter" independently of what it is called and of captured variables of the same name
+		fx.params[fmt.Sprintf("param%d", i)] = sval{term: n, typ: p.Type(), sort: s}
 		fx.asserts = append(fx.asserts, assertion{-1, "(assert " + fx.wellTyped(n, p.Type(), "alloc!0") + ")"})
 		paramInv = append(paramInv, [2]interface{}{n, p.Type()})
 	}
